@@ -58,6 +58,22 @@ DESIGNED = [
     Recip(Add(Mul(w, w), Mul(z, z), Mul(y, y), Mul(x, x), C(1))),
     Mul(Log(Add(w, C(2))), Log(Add(z, C(2))), Log(Add(y, C(2)), 2), Log(Add(x, C(2)), 2)),
     Add(Pow(w, x), Pow(z, y), Pow(y, w), Pow(x, z)),
+    # repeated terms / factors and cancellation-heavy accumulations (order of float accumulation is observable)
+    Add(Sin(x), Exp(x), Sin(x), Log(x), Mul(y, x), Sin(x)),
+    Add(Mul(C(5e15), x), x, Mul(C(5e15), x), Mul(C(-1e16), x), y),
+    Add(Mul(C(1e16), x, y), Mul(x, y), Mul(C(-1e16), x, y), Mul(C(3), x), Mul(x, y), z),
+    Mul(Add(x, y), Add(x, y), Sin(z), Add(x, y), Cos(w), Sin(z)),
+    Add(NPow(x, 3), Mul(C(1e17), NPow(x, 3)), Log(y), NPow(x, 3), Mul(C(-1e17), NPow(x, 3)), Log(y)),
+    Mul(Exp(x), Recip(y), Exp(x), z, Recip(y), w),
+    Add(Div(x, y), Div(x, y), Div(z, w), Root(x, 3), Div(z, w), Root(x, 3)),
+    # products whose derivative (wrt the first factor) is a sum / product that the consolidation rules regroup by key
+    Mul(x, Add(Log(y), Log(z), Log(y, 2), Log(z, 2), Log(w, 10), Log(y, 10), Log(w))),
+    Mul(x, Mul(NPow(y, 2), NPow(z, 3), NPow(w, 2), NPow(y, 3), NPow(z, 5), NPow(w, 5))),
+    Mul(x, Mul(Root(y, 2), Root(z, 3), Root(w, 2), Root(y, 3), Root(z, 5), Root(w, 5))),
+    Mul(x, Mul(Exp(y), Exp(z, 2), Exp(w), Exp(y, 2), Exp(z, 10), Exp(w, 10))),
+    Mul(x, Mul(y, z, NPow(y, 2), w, NPow(z, 2), Sin(y), NPow(w, 2), Cos(z))),
+    Mul(x, Add(C(1), y, C(2), z, Neg(w), C(0.5), Neg(y))),
+    Add(Mul(x, Log(y), Log(z)), Mul(x, Log(y, 2), Log(w, 2)), Mul(x, Log(w))),
 ]
 
 POINTS4 = [{"x": 2, "y": 3, "z": 0.5, "w": 1.5}, {"x": 0.25, "y": 1.25, "z": 3, "w": 2}]
@@ -138,7 +154,7 @@ _JOB_TERMS = None
 def _config_job(job):
     kind, k, order = job
     if kind == "ctl":
-        with Controlled(order):
+        with Controlled(order, flip=bool(k % 2)):
             return item_digests(_JOB_TERMS, coord_perm=k, creation_order=order[::-1])
     if kind == "coord":
         return item_digests(_JOB_TERMS, coord_perm=k)
@@ -152,20 +168,47 @@ def _perm_for(n, k):
 
 # ---------------------------------------------------------------- (a) controlled iteration order
 class Controlled:
-    """Context manager: every Expression._variable_names iterates in `order`."""
+    """Context manager that owns set iteration order inside the library:
+    * every Expression._variable_names iterates in `order` (wrapper around Expression.__init__);
+    * every `set(...)` / `frozenset(...)` constructed by name inside a smoothmath module yields a set whose
+      iteration order is chosen here too (the name `set` is injected into the modules' globals), so a set
+      introduced by a change is steered as well: strings by `order`, other items by printed form, ascending or
+      descending depending on `flip`."""
 
-    def __init__(self, order):
+    def __init__(self, order, flip=False):
         self.order = {n: i for i, n in enumerate(order)}
+        self.flip = flip
 
     def __enter__(self):
+        import sys as _sys
         import smoothmath._private.base_expression.expression as be
         outer = self
+
+        def keyfn(item):
+            if isinstance(item, str):
+                return (0, outer.order.get(item, 99), item)
+            return (1, 0, repr(item))
 
         class CtlSet(set):
             def __iter__(self):
                 items = list(set.__iter__(self))
-                items.sort(key=lambda n: (outer.order.get(n, 99), n))
+                items.sort(key=keyfn, reverse=outer.flip and not all(isinstance(i, str) for i in items))
                 return iter(items)
+
+            def _wrap(self, other):
+                return CtlSet(other)
+
+            def union(self, *others):
+                return CtlSet(set.union(self, *others))
+
+            def difference(self, *others):
+                return CtlSet(set.difference(self, *others))
+
+            def intersection(self, *others):
+                return CtlSet(set.intersection(self, *others))
+
+            def copy(self):
+                return CtlSet(self)
 
         self._cls = be.Expression
         self._orig = be.Expression.__init__
@@ -174,10 +217,21 @@ class Controlled:
             outer._orig(this, CtlSet(variable_names))
         be.Expression.__init__ = patched
         self.CtlSet = CtlSet
+        self._mods = []
+        for name, mod in list(_sys.modules.items()):
+            if mod is not None and (name == "smoothmath" or name.startswith("smoothmath.")):
+                if "set" not in vars(mod):
+                    mod.set = CtlSet
+                    self._mods.append(mod)
         return self
 
     def __exit__(self, *a):
         self._cls.__init__ = self._orig
+        for mod in self._mods:
+            try:
+                del mod.set
+            except AttributeError:
+                pass
 
 
 def steering_works():
